@@ -11,9 +11,22 @@ SPUB_T = MOD + '/secec/bitcoin.SchnorrPublicKey'
 
 def main():
     chk = Check('C13')
+    only = os.environ.get('VERIF_ONLY', '')
+    tasks = build(chk, only)
+    # contracts this check's toy layer uses for routines named in the property's own file list: re-decided here (see common.include_dependency)
+    from .common import include_dependency
+    if not only or 'dep' in only:
+        include_dependency(chk, tasks, 'C04', '', 'BIP-340 verification computes -e*P with the variable-time GLV multiply (toy layer: contract)')
+        include_dependency(chk, tasks, 'C05', 'table lookup basemult', 'BIP-340 verification computes s*G with scalarBaseMultVartime (toy layer: contract)')
+        include_dependency(chk, tasks, 'C16', 'dsm', 'BIP-340 verification calls DoubleScalarMultBasepointVartime (toy layer: contract)')
+    chk.run_tasks(tasks)
+    chk.discharge()
+    chk.finish()
+
+
+def build(chk, only=''):
     prog = load_prog()
     gl = load_globals(prog)
-    only = os.environ.get('VERIF_ONLY', '')
     chk.summaries.update(T.CONTRACT_SUMMARY)
     chk.stubs += stubs.STUB_NOTES
     toys = TOYS_THOROUGH if chk.thorough else TOYS_QUICK
@@ -151,9 +164,7 @@ def main():
         tasks.append(('parse-full', t_parse_full))
         chk.bounds.append('parseSchnorrSignature at full width: all 64-byte signatures (r in [p,2^256), s in [n,2^256) included)')
 
-    chk.run_tasks(tasks)
-    chk.discharge()
-    chk.finish()
+    return tasks
 
 
 if __name__ == '__main__':
